@@ -12,6 +12,7 @@ import (
 	"strings"
 
 	"github.com/ansible/receptor/pkg/controlsvc"
+	"github.com/ansible/receptor/pkg/verifhook"
 )
 
 type workceptorCommandType struct {
@@ -296,6 +297,7 @@ func (c *workceptorCommand) ControlFunc(ctx context.Context, nc controlsvc.Netce
 		if err != nil {
 			return nil, err
 		}
+		verifhook.At("submit.stdin_created", worker.ID())
 		worker.UpdateBasicStatus(WorkStatePending, "Waiting for Input Data", 0)
 		err = cfo.ReadFromConn(fmt.Sprintf("Work unit created with ID %s. Send stdin data and EOF.\n", worker.ID()), stdin, &controlsvc.SocketConnIO{})
 		if err != nil {
@@ -309,7 +311,9 @@ func (c *workceptorCommand) ControlFunc(ctx context.Context, nc controlsvc.Netce
 
 			return nil, err
 		}
+		verifhook.At("submit.stdin_closed", worker.ID())
 		worker.UpdateBasicStatus(WorkStatePending, "Starting Worker", 0)
+		verifhook.At("submit.before_start", worker.ID())
 		err = worker.Start()
 		if err != nil && !IsPending(err) {
 			worker.UpdateBasicStatus(WorkStateFailed, fmt.Sprintf("Error starting worker: %s", err), 0)
